@@ -65,6 +65,20 @@ def gen_valid(rng):
         if rng.random() < 0.2:
             kw["extra_atom_labels"] = ["_a"]
         tags.append("mode:empty")
+        if rng.random() < 0.6:
+            # tables only (since 84d3f69 an atom-less structure keeps the element table it is given; labels default to
+            # it, masses are looked up for it): a legitimate starting point that is extended later
+            nt = rng.randint(1, 3)
+            kw["atom_type_elements"] = [rng.choice(ELEMS) for _ in range(nt)]
+            tags.append("empty:type-tables")
+            if rng.random() < 0.5:
+                kw["atom_type_labels"] = ["L%d_%d" % (i, rng.randint(0, 9)) for i in range(nt + rng.choice([0, 0, 1]))]
+                tags.append("labels:given")
+            if rng.random() < 0.5:
+                kw["atom_type_masses"] = [dy(rng, 1, 200) for _ in range(nt + rng.choice([0, 0, 1]))]
+                tags.append("masses:given")
+            if rng.random() < 0.4:
+                kw["pair_coeffs"] = ["p%d" % i for i in range(nt)]
         return kw, tags
     kw["positions"] = [[dy(rng), dy(rng), dy(rng)] for _ in range(n)]
     mode = rng.choice(["types", "elements", "elements"])
